@@ -799,7 +799,7 @@ func (lc *liveChecker) verify(f *core.FuncInfo) string {
 }
 
 func checkC19(r *core.Run) {
-	r.Explain = "Decided statically: (C19.switch) Select dispatches each of the five policy constants to its own policy function; (C19.live) in every policy function (and the session manager's own fallback) each session that can be returned is nil, was tested !IsClosed() in the same invocation after it was last read from long-lived storage, comes from a collection filled only with such sessions, or is the result of a callee with that property; (C19.xid) the value handed to the xid extractor is the message body (an interface value), not an envelope type that is none of the asserted request types and has no Xid field; the XID policy compares ip:port of the xid with the session's remote address; (C19.announce) from the listener's OnOpen both the RegisterTMRequest and a RegisterRMRequest for the cached resources are reachable in the call graph. NOT decided: histories of sessions opening and closing between selections; what the coordinator does with the announcements."
+	r.Explain = "Decided statically: (C19.switch) Select dispatches each of the five policy constants to its own policy function; (C19.live) in every policy function (and the session manager's own fallback) each session that can be returned is nil, was tested !IsClosed() in the same invocation after it was last read from long-lived storage, comes from a collection filled only with such sessions, or is the result of a callee with that property; (C19.xid) the value handed to the xid extractor is the message body (an interface value), not an envelope type that is none of the asserted request types and has no Xid field; the XID policy compares ip:port of the xid with the session's remote address; (C19.announce) from the listener's OnOpen both the RegisterTMRequest and a RegisterRMRequest for the cached resources are reachable in the call graph. (C19.live, also) a policy's answer m[k] is a lookup that cannot miss: k is one of the keys stored into m in the same invocation; NOT decided: histories of sessions opening and closing between selections; what the coordinator does with the announcements."
 	r.Trusted = []string{"go/types, go/cfg", "getty Session.IsClosed"}
 	w := r.W
 	sel := r.Anchor("C19.switch", w.Func("pkg/remoting/loadbalance", "", "Select"), "loadbalance.Select")
